@@ -136,6 +136,12 @@ def failed_append_tie(rep, cases):
     if not sel:
         rep.obligation("correspondence failed append: at least one case", False)
         return {"cases": 0}
+    nsel = len(sel)
+    if len(sel) > 800:
+        # evaluating the model costs seconds per case (20 kB values inside vm_compute): a deterministic sample of 800, every 20 kB case last
+        sel.sort(key=lambda x: (any(len(o) > 2 and len(o[2]) > 10000 for o in x[0].ops if o[0] == "set"), x[0].name))
+        step = len(sel) / 800.0
+        sel = [sel[int(i * step)] for i in range(800)]
 
     def term(c, opi):
         m = S.Case(c.name, c.cfg, [o for o in c.ops])
@@ -166,9 +172,9 @@ def failed_append_tie(rep, cases):
         nwrites = raw.get(bi, 0) - sum(1 for x in calls if x.kind != "write")
         o = c.ops[opi]
         return idx == nwrites and (o[0] == "del" or len(o[2]) < 8192)
-    shards = chunks(sel, max(NCPU, len(sel) // 60))          # at most ~60 cases per coqc process
+    shards = chunks(sel, max(NCPU, len(sel) // 20))          # at most ~20 cases per coqc process
     terms = ["render_cases [%s]" % "; ".join(term(c, opi) for c, opi in sh) for sh in shards]
-    res, logs = coq_eval("C20", "Store.Engine Store.Render", terms)
+    res, logs = coq_eval("C20", "Store.Engine Store.Render", terms, timeout=2400)
     for l in logs[:1]:
         log(l)
     ndis, ncmp, ok_eval = 0, 0, True
@@ -195,7 +201,7 @@ def failed_append_tie(rep, cases):
                                      "first_difference_at": j, "model": model[max(0, j - 1):j + 2], "impl": impl[max(0, j - 1):j + 2]})
     rep.obligation("the failed-append model evaluates on every selected case", ok_eval)
     rep.obligation("correspondence failed append: results, index, counters and restart = the failed-append model on every case", ndis == 0 and ok_eval)
-    return {"cases": ncmp}
+    return {"cases": ncmp, "selected_from": nsel}
 
 
 def main(tier, seed):
